@@ -72,4 +72,58 @@ theorem pad_isDig (w n : Nat) : ∀ c ∈ pad w n, IsDig c := by
   · have := List.eq_of_mem_replicate h; exact ⟨0, by omega, by rw [this]; rfl⟩
   · exact natDigits_isDig n c h
 
+/-! ## decimal texts are injective and free of `_` (for `key_period_size`) -/
+
+theorem natDigits_inj (a b : Nat) (h : natDigits a = natDigits b) : a = b := by
+  have := foldVal_natDigits a
+  rw [h, foldVal_natDigits] at this
+  exact this.symm
+
+theorem intText_inj (i j : Int) (h : intText i = intText j) : i = j := by
+  unfold intText at h
+  have hd : ∀ n : Nat, ∀ cs, '-' :: cs ≠ natDigits n := by
+    intro n cs he
+    have hmem : '-' ∈ natDigits n := by rw [← he]; exact List.mem_cons_self
+    exact (natDigits_isDig n _ hmem).ne_minus rfl
+  split at h <;> split at h
+  · injection h with _ h
+    have := natDigits_inj _ _ h; omega
+  · exact absurd h (hd _ _)
+  · exact absurd h.symm (hd _ _)
+  · have := natDigits_inj _ _ h; omega
+
+theorem intText_no_us (i : Int) : '_' ∉ intText i := by
+  unfold intText
+  intro hm
+  split at hm
+  · rcases List.mem_cons.1 hm with h | h
+    · cases h
+    · exact (natDigits_isDig _ _ h).ne_us rfl
+  · exact (natDigits_isDig _ _ hm).ne_us rfl
+
+theorem append_sep_inj (sep : Char) : ∀ (a a' b b' : List Char), sep ∉ a → sep ∉ a' →
+    a ++ sep :: b = a' ++ sep :: b' → a = a' ∧ b = b' := by
+  intro a
+  induction a with
+  | nil =>
+    intro a' b b' _ h' h
+    cases a' with
+    | nil => simp only [List.nil_append] at h; injection h with _ h; exact ⟨rfl, h⟩
+    | cons c cs =>
+      simp only [List.nil_append, List.cons_append] at h
+      injection h with h1 _
+      exact absurd (h1 ▸ List.mem_cons_self) h'
+  | cons x xs ih =>
+    intro a' b b' hx h' h
+    cases a' with
+    | nil =>
+      simp only [List.nil_append, List.cons_append] at h
+      injection h with h1 _
+      exact absurd (h1 ▸ List.mem_cons_self) hx
+    | cons c cs =>
+      simp only [List.cons_append] at h
+      injection h with h1 h2
+      obtain ⟨e1, e2⟩ := ih cs b b' (fun hm => hx (List.mem_cons_of_mem _ hm)) (fun hm => h' (List.mem_cons_of_mem _ hm)) h2
+      exact ⟨by rw [h1, e1], e2⟩
+
 end OFCore
